@@ -261,7 +261,9 @@ fn leg_conversions(ctx: &Ctx, out: &mut Out) {
         match r {
             Ok((wu, back)) => {
                 let want = (mw as u64).div_ceil(1000);
-                if wu != want {
+                if Cost::from_milliweight(mw).is_consensus_valid() != (mw <= 4_000_050_000) {
+                    out.violation("conv:consensus-valid", leg, format!("milliweight={mw}"), "is_consensus_valid disagrees with the 4 000 050 weight unit limit".into());
+                } else if wu != want {
                     out.violation("conv:round-up", leg, format!("milliweight={mw}"), format!("Weight = {wu}, ceil = {want}"));
                 } else if back < Cost::from_milliweight(mw) || back != Cost::from_milliweight((want * 1000) as u32) {
                     out.violation("conv:back", leg, format!("milliweight={mw}"), format!("Cost->Weight->Cost = {back}"));
@@ -276,6 +278,21 @@ fn leg_conversions(ctx: &Ctx, out: &mut Out) {
                 out.outcome("conv:ok");
                 prev = Some((mw, wu));
             }
+            Err(p) => out.violation(&panic_class(&p), leg, format!("milliweight={mw}"), p),
+        }
+        ctx.end();
+    }
+    // the consensus limit itself, from both sides and at the end of the range (conversions of costs above
+    // the limit are documented as insignificant and are not judged)
+    for mw in [0u32, 4_000_049_999, 4_000_050_000, 4_000_050_001, 4_000_051_000, u32::MAX - 1, u32::MAX] {
+        if !ctx.begin(leg, &|| format!("is_consensus_valid milliweight={mw}")) {
+            continue;
+        }
+        out.evaluations += 1;
+        out.transitions += 1;
+        match guard(|| Cost::from_milliweight(mw).is_consensus_valid()) {
+            Ok(v) if v == (mw <= 4_000_050_000) => {}
+            Ok(v) => out.violation("conv:consensus-valid", leg, format!("milliweight={mw}"), format!("is_consensus_valid = {v}")),
             Err(p) => out.violation(&panic_class(&p), leg, format!("milliweight={mw}"), p),
         }
         ctx.end();
